@@ -36,18 +36,44 @@ Notation "'do' x <- r ; k" := (bind r (fun x => k)) (at level 200, x pattern, r 
 (* ------------------------------------------------------------------------------------------------------------- *)
 (* Loop trees (program/loop.py, utils/tree.py)                                                                     *)
 
-(* per-node flags: measurements attached; repetition count is a VolatileRepetitionCount (its CURRENT value is `rep`) *)
-Record nmeta := { has_meas : bool; is_vol : bool }.
-Definition plain : nmeta := {| has_meas := false; is_vol := false |}.
-Definition clear_vol (m : nmeta) : nmeta := {| has_meas := has_meas m; is_vol := false |}.
-Definition merge_meta (p c : nmeta) : nmeta :=
-  {| has_meas := has_meas p || has_meas c; is_vol := is_vol p || is_vol c |}.
+(* the VolatileProperty (expression, dependencies) of a volatile repetition count, up to what the compiler can build:
+   k * <volatile parameter i>   or   k * (parent count * child count)   (VolatileRepetitionCount.operation);
+   equality as decided by the expression's canonical form: same factor, same core; factor 0 = the constant 0 *)
+Inductive vprop := VId (k : Z) (i : Z) | VOp (k : Z) (p c : vprop).
+
+Fixpoint vprop_eqb (a b : vprop) : bool :=
+  match a, b with
+  | VId k i, VId k' i' => (k =? k') && ((k =? 0) || (i =? i'))
+  | VOp k p c, VOp k' p' c' => (k =? k') && ((k =? 0) || (vprop_eqb p p' && vprop_eqb c c'))
+  | VId k _, VOp k' _ _ | VOp k _ _, VId k' _ => (k =? 0) && (k' =? 0)
+  end.
+
+(* VolatileValue.__mul__(int) *)
+Definition vscale (v : vprop) (n : Z) : vprop :=
+  match v with VId k i => VId (k * n) i | VOp k p c => VOp (k * n) p c end.
+
+(* per-node flags: measurements attached; the repetition count is a VolatileRepetitionCount with this property (its
+   CURRENT value is `rep`) *)
+Record nmeta := { has_meas : bool; vol : option vprop }.
+Definition is_vol (m : nmeta) : bool := match vol m with Some _ => true | None => false end.
+Definition plain : nmeta := {| has_meas := false; vol := None |}.
+Definition clear_vol (m : nmeta) : nmeta := {| has_meas := has_meas m; vol := None |}.
+(* Loop._merge_single_child: parent (count r, flags p) over child (count cr, flags c) *)
+Definition merge_meta (r : Z) (p : nmeta) (cr : Z) (c : nmeta) : nmeta :=
+  {| has_meas := has_meas p || has_meas c;
+     vol := match vol p, vol c with
+            | None, None => None
+            | None, Some vc => Some (vscale vc r)
+            | Some vp, None => Some (vscale vp cr)
+            | Some vp, Some vc => Some (VOp 1 vp vc)
+            end |}.
 
 Inductive loop := Loop (rep : Z) (meta : nmeta) (wf : option nat) (ch : list loop).
 
 Definition l_rep (l : loop) : Z := match l with Loop r _ _ _ => r end.
 Definition l_meas (l : loop) : bool := match l with Loop _ m _ _ => has_meas m end.
 Definition l_vol (l : loop) : bool := match l with Loop _ m _ _ => is_vol m end.
+Definition l_volp (l : loop) : option vprop := match l with Loop _ m _ _ => vol m end.
 Definition l_wf (l : loop) : option nat := match l with Loop _ _ w _ => w end.
 Definition l_ch (l : loop) : list loop := match l with Loop _ _ _ c => c end.
 Definition l_len (l : loop) : Z := Z.of_nat (length (l_ch l)).
@@ -90,7 +116,7 @@ Definition can_merge (l : loop) : bool :=
 (* Loop._merge_single_child *)
 Definition merge_child (l : loop) : loop :=
   match l with
-  | Loop r m _ [Loop cr cm cw cch] => Loop (r * cr) (merge_meta m cm) cw cch   (* volatile if either count is *)
+  | Loop r m _ [Loop cr cm cw cch] => Loop (r * cr) (merge_meta r m cr cm) cw cch   (* volatile if either count is *)
   | _ => l
   end.
 
@@ -312,13 +338,27 @@ Fixpoint parse_table (tbl : list wfdata) (children : list loop) (known : list (Z
 
 Record parsed := { p_adv : list (Z * Z); p_seqs : list (list (Z * Z)); p_wfs : list (Z * nat) }.
 
-Fixpoint parse_aseq_loop (tbl : list wfdata) (tables : list loop) (adv : list (Z * Z)) (seqs : list (list (Z * Z)))
+(* the key of sequencer_tables: the tuple of (TableDescription, volatile_repetition) pairs — two tables with the same
+   entries are distinct when the volatile properties of their entries differ *)
+Definition tkey : Type := list (Z * Z) * list (option vprop).
+
+Fixpoint tags_eqb (a b : list (option vprop)) : bool :=
+  match a, b with
+  | [], [] => true
+  | x :: a', y :: b' =>
+      (match x, y with None, None => true | Some u, Some v => vprop_eqb u v | _, _ => false end) && tags_eqb a' b'
+  | _, _ => false
+  end.
+
+Definition tkey_eqb (a b : tkey) : bool := table_eqb (fst a) (fst b) && tags_eqb (snd a) (snd b).
+
+Fixpoint parse_aseq_loop (tbl : list wfdata) (tables : list loop) (adv : list (Z * Z)) (seqs : list tkey)
   (known : list (Z * nat)) : result parsed :=
   match tables with
-  | [] => Ok {| p_adv := adv; p_seqs := seqs; p_wfs := known |}
+  | [] => Ok {| p_adv := adv; p_seqs := map fst seqs; p_wfs := known |}
   | t :: r =>
       do (es, known') <- parse_table tbl (l_ch t) known;
-      let '(sidx, seqs') := setdefault table_eqb es seqs in
+      let '(sidx, seqs') := setdefault tkey_eqb (es, map l_volp (l_ch t)) seqs in
       parse_aseq_loop tbl r (adv ++ [(l_rep t, sidx + 1)]) seqs' known'
   end.
 
